@@ -17,6 +17,8 @@ def run(ctx):
     import roles as _roles
     _roles.rule_R_ROLE(ctx, modules=('enum_narsese::',))
     _roles.rule_A_NAMES(ctx, modules=('enum_narsese::',))
+    import lskel as _lskel
+    _lskel.rule_L_SKELETON(ctx, which=('term',), floor=10)
     ctx.undecided = []
     ctx.assumptions = ["std Hash for String/usize/str/Box<T> is a function of the value", "DefaultHasher::new() uses fixed keys (deterministic)",
                        "equal components hash equally (induction hypothesis; base case = std types)"]
